@@ -1297,7 +1297,7 @@ pub fn c07(seed: u64, budget: u64) -> FOut {
 /// C10: incarnation discipline, self-refutation, reaction to own death
 pub fn c10(seed: u64, budget: u64) -> FOut {
     let mut out = FOut::default();
-    out.rule = "seeded histories (300 calls) over incarnations {0,1,2,2^15 boundary,MAX-1,MAX,random}, suspicions older/equal/newer than the own incarnation, the four renew kinds (none / bump / same / losing); monitors after every call: the own incarnation never decreases while the identity is kept (except reuse_down_identity), grows only when the input carried Suspect(self, i >= own) and then exceeds i, every header carries the current identity with an incarnation between the values before and after the call, no update ever leaves with an incarnation above the highest one told for that identity (0 for locally created Down records), and learning Down(self) (update, TurnUndead, Suspect at MAX) ends in a renewed winning identity with Rejoin or in Defunct - never still connected under the dead identity. distinct = histories with at least one self-suspicion and one Down(self)".into();
+    out.rule = "seeded histories (300 calls) over incarnations {0,1,2,2^15 boundary,MAX-1,MAX,random}, suspicions older/equal/newer than the own incarnation, the four renew kinds (none / bump / same / losing); monitors after every call: a new identity starts at incarnation 0, the own incarnation never decreases while the identity is kept (except reuse_down_identity), grows only when the input carried Suspect(self, i >= own) and then exceeds i, every header carries the current identity with an incarnation between the values before and after the call, no update ever leaves with an incarnation above the highest one told for that identity (0 for locally created Down records), and learning Down(self) (update, TurnUndead, Suspect at MAX) ends in a renewed winning identity with Rejoin or in Defunct - never still connected under the dead identity. distinct = histories with at least one self-suspicion and one Down(self)".into();
     for h in 0..budget {
         let hs = seed.wrapping_mul(2750159).wrapping_add(h);
         let mut told: BTreeMap<VId, u16> = BTreeMap::new();
@@ -1312,6 +1312,7 @@ pub fn c10(seed: u64, budget: u64) -> FOut {
             let ctx = |w: &str| J::s(format!("{w} on {input:?} (history {hs}); identity {:?} inc {} -> {:?} inc {}", pre.identity, pre.incarnation, post.identity, post.incarnation));
             // what the input tells
             let mut self_updates: Vec<MMember> = vec![];
+            let mut all_updates: Vec<MMember> = vec![];
             let mut note = |m: &MMember, told: &mut BTreeMap<VId, u16>| {
                 let e = told.entry(m.id).or_insert(0);
                 if m.inc > *e {
@@ -1338,6 +1339,7 @@ pub fn c10(seed: u64, budget: u64) -> FOut {
                             if let Ok(m) = dec_member(&mut &u[..]) {
                                 let mm = MMember::from(&m);
                                 note(&mm, &mut told);
+                                all_updates.push(mm);
                                 if processed && !sender_inactive && mm.id == pre.identity {
                                     self_updates.push(mm);
                                 }
@@ -1366,6 +1368,7 @@ pub fn c10(seed: u64, budget: u64) -> FOut {
                 Input::ApplyMany(l, _) => {
                     for m in l {
                         note(m, &mut told);
+                        all_updates.push(*m);
                         if m.id == pre.identity {
                             self_updates.push(*m);
                         }
@@ -1378,6 +1381,11 @@ pub fn c10(seed: u64, budget: u64) -> FOut {
             // (a) monotone
             if same_id && post.incarnation < pre.incarnation && !matches!(input, Input::ReuseDown) {
                 hits.push(("C10:incarnation-decreased".into(), ctx("decrease")));
+            }
+            // (a') a new identity starts at incarnation 0 (it can only have grown within the same call if the
+            // input also carried a suspicion about the new identity)
+            if !same_id && post.incarnation != 0 && !all_updates.iter().any(|m| m.id == post.identity && m.state == 1) {
+                hits.push(("C10:new-identity-does-not-start-at-zero".into(), ctx("identity change")));
             }
             // (b) growth cause
             let relevant: Vec<&MMember> = self_updates.iter().filter(|m| m.state == 1 && m.inc as u128 >= pre.incarnation).collect();
@@ -1822,9 +1830,10 @@ pub fn c12(seed: u64, budget: u64) -> FOut {
         // a quarter of the members are already under suspicion (learnt through gossip: no timer of A's own is pending for them)
         let members: Vec<MMember> = (1..=n).map(|i| MMember { id: VId::new(i, 0, 0, 0), inc: g.below(3) as u16, state: (g.below(4) == 0) as u8 }).collect();
         let rseed = g.next();
-        // one layout in five: the probe number is driven around its u8 range first (253..257 acked
-        // rounds), so that the rounds examined carry the numbers 254, 255, 0, 1, 2
-        let warm_rounds = if g.below(5) == 0 { 253 + g.below(5) } else { 0 };
+        // one layout in five: the probe number is driven around its u8 range first (253..257 successful
+        // rounds), so that the rounds examined carry the numbers 254, 255, 0, 1, 2; another fifth: a few
+        // successful rounds; every third warm-up round succeeds through a helper's ForwardedAck only
+        let warm_rounds = match g.below(5) { 0 => 253 + g.below(5), 1 => 3 + g.below(6), _ => 0 };
         for kind_fwd in [false, true] {
             for who in 0..4u8 {
                 // 0 target, 1 asked helper, 2 unasked member, 3 unknown
@@ -1832,17 +1841,23 @@ pub fn c12(seed: u64, budget: u64) -> FOut {
                     for when in 0..3u8 {
                         let mut a = Inst::new(a_id, &cfg, rseed, 0, 255);
                         run_real(&mut a.foca, &Input::ApplyMany(members.clone(), false));
-                        for _ in 0..warm_rounds {
+                        for wr in 0..warm_rounds {
                             let tok = a.snapshot().token;
                             let (e, _) = run_real(&mut a.foca, &Input::Timer(MTimer::Probe(tok)));
                             let mut ind = None;
+                            let mut pinged: Option<(VId, u8)> = None;
+                            // every third round succeeds through the indirect path only (no direct Ack)
+                            let via_helper = wr % 3 == 2 && members.len() >= 2;
                             for x in &e {
                                 match x {
                                     Eff::Send(d, b) => {
                                         if let Some(h) = hdr_of(b) {
                                             if let Mg::Ping(k) = h.message {
-                                                let inc = members.iter().find(|m| m.id == *d).map(|m| m.inc).unwrap_or(0);
-                                                run_real(&mut a.foca, &Input::Data(mk_dgram(*d, inc, a_id, Mg::Ack(k))));
+                                                pinged = Some((*d, k));
+                                                if !via_helper {
+                                                    let inc = members.iter().find(|m| m.id == *d).map(|m| m.inc).unwrap_or(0);
+                                                    run_real(&mut a.foca, &Input::Data(mk_dgram(*d, inc, a_id, Mg::Ack(k))));
+                                                }
                                             }
                                         }
                                     }
@@ -1851,7 +1866,20 @@ pub fn c12(seed: u64, budget: u64) -> FOut {
                                 }
                             }
                             if let Some(t) = ind {
-                                run_real(&mut a.foca, &Input::Timer(t));
+                                let (e2, _) = run_real(&mut a.foca, &Input::Timer(t));
+                                if via_helper {
+                                    if let Some((tgt, k)) = pinged {
+                                        let helper = e2.iter().find_map(|x| if let Eff::Send(d, b) = x { hdr_of(b).and_then(|h| if matches!(h.message, Mg::PingReq { .. }) { Some(*d) } else { None }) } else { None });
+                                        if let Some(hp) = helper {
+                                            let inc = members.iter().find(|m| m.id == hp).map(|m| m.inc).unwrap_or(0);
+                                            run_real(&mut a.foca, &Input::Data(mk_dgram(hp, inc, a_id, Mg::ForwardedAck { origin: tgt, probe_number: k })));
+                                        } else {
+                                            // nobody to ask (single member): fall back to the direct ack
+                                            let inc = members.iter().find(|m| m.id == tgt).map(|m| m.inc).unwrap_or(0);
+                                            run_real(&mut a.foca, &Input::Data(mk_dgram(tgt, inc, a_id, Mg::Ack(k))));
+                                        }
+                                    }
+                                }
                             }
                         }
                         if warm_rounds > 0 && a.snapshot().members.iter().any(|m| m.state != members.iter().find(|x| x.id == m.id).map(|x| x.state).unwrap_or(0)) {
